@@ -85,6 +85,8 @@ def cancel_items(rng, quick):
 
 
 def run(ctx):
+    import engine_model
+    engine_model.model_part(ctx, 'C05')
     probe_part(ctx)
     prof = dict(max_steps=4, p_tag=0.1, p_error=0.2, p_crash=0.2, p_deployfail=0.2, p_enabled=0.4, p_multi=0.5)
 
